@@ -25,6 +25,7 @@ fn main() {
         "C05" => ptfs_eng::c05(&args),
         "C08" => ptfs_eng::c08(&args),
         "C15" => ptfs_eng::c15(&args),
+        "C16" => ptfs_eng::c16(&args),
         "C18" => ptfs_eng::c18(&args),
         "C07" => vfs_eng::run(&args, "C07"),
         "C14" => vfs_eng::run(&args, "C14"),
